@@ -25,6 +25,7 @@ theorem run_appendOnly_no_protected_removal (hc : Bool) (cmd : Cmd) (ops : List 
     cases c with
     | setAppendOnly b => cases b <;> first | exact fin _ (by decide) h | simp [run] at h
     | other ch => simp [run] at h
+    | rejected sao why => simp only [run] at h; split at h <;> cases h
   | addKey => exact fin _ (by decide) h
   | deleteKey => exact fin _ (by decide) h
   | copyInto => exact fin _ (by decide) h
